@@ -32,7 +32,55 @@ def rt_cfgs():
         c.append({"K": 3, "LAYOUT": lay, "S": 96, "_unwindset": rt_uw(3, 96, 32 * lay), "_tier": "thorough"})
     return c
 
+def up_uw(n, nm=3, vm=8):
+    return ["main.%d:%d" % (i, 10) for i in range(17)] + \
+        ["find_ea_index.0:10", "ref_key_cmp.0:%d" % (nm + 1), "ref_same_val.0:%d" % (vm + 1),
+         "vf_decode.2:5", "vf_decode.0:%d" % (nm + 1), "vf_decode.1:%d" % (vm + 1), "stub_memmove.0:4", "stub_memmove.1:4", "ref_space.0:5",
+         "ref_same_key.0:%d" % (nm + 1), "ref_attr_ok.0:%d" % (nm + 1), "xattr_find_position.0:%d" % (n + 2),
+         "strlen.0:26", "strncmp.0:26", "memcmp.0:%d" % (nm + 2)]
+
+def up_cfgs():
+    c = []
+    for n in (0, 1, 2, 3):
+        for ibc in range(n + 1):
+            for old in range(-1, n):
+                for pfx in (1, 0):
+                    if pfx == 0 and not (n == 2 and old == -1):
+                        continue
+                    c.append({"N": n, "IBC": ibc, "OLD": "(%d)" % old, "PFX": pfx, "_unwindset": up_uw(n),
+                              "_tier": "quick" if n <= 2 else "thorough"})
+    return c
+
+def rm_uw(n, nm=3, vm=8):
+    return ["main.%d:%d" % (i, 10) for i in range(14)] + \
+        ["stub_memmove.0:4", "stub_memmove.1:4", "ext2fs_xattr_remove.0:%d" % (n + 1), "ext2fs_xattr_get.0:%d" % (n + 1),
+         "ref_attr_ok.0:%d" % (nm + 1), "ref_same_key.0:%d" % (nm + 1),
+         "vf_attr_is.0:6", "vf_attr_is.1:%d" % (nm + 2), "vf_attr_is.2:%d" % (vm + 1),
+         "strcmp.0:%d" % (5 + nm + 2), "strlen.0:26"]
+
+def rm_cfgs():
+    c = []
+    for op in (1, 2):
+        for n in (1, 2, 3):
+            for ibc in range(n + 1):
+                if op == 2 and ibc not in (0,):
+                    continue
+                c.append({"OP": op, "N": n, "IBC": ibc, "_unwindset": rm_uw(n)})
+    return c
+
 HARNESSES = [
+    dict(name="remove", src="remove.c",
+         funcs=["ext2fs_xattr_remove", "ext2fs_xattr_get", "ext2fs_xattrs_write", "ext2fs_xattrs_open"],
+         configs=rm_cfgs(), unwind=5, backends=["default", "kissat"],
+         bound="N in {1,2,3} attributes in namespace user., ibody_count 0..N (compile time), short names 0..3 bytes, "
+               "values 0..8 bytes, key symbolic (present at any position or absent)"),
+    dict(name="update", src="update.c",
+         funcs=["xattr_array_update", "xattr_update_entry", "xattr_find_position", "find_ea_index", "ext2fs_xattrs_open"],
+         configs=up_cfgs(), witness_per_config=True, unwind=5, backends=["default", "kissat"],
+         bound="N in {0,1,2} (thorough: 3) attributes before the step, ibody_count and old_idx symbolic, name index all "
+               "256 values, short names 0..3 bytes, values 0..8 bytes, capacities of both parts symbolic 0..96 bytes, "
+               "edited name in namespace user. or without prefix",
+         ),
     dict(name="rt", src="rt.c",
          funcs=["write_xattrs_to_buffer", "read_xattrs_from_buffer", "find_ea_prefix", "ext2fs_ext_attr_hash_entry3"],
          configs=rt_cfgs(), unwind=5, backends=["default", "kissat"],
